@@ -83,6 +83,9 @@ def fault_cases():
     cases.append(("bad-merge-name", g, base + ["--merge", "fuzzy"], True))
     cases.append(("bad-merge-arg", g, base + ["--merge", "percent_abc"], True))
     cases.append(("bad-merge-arity", g, base + ["--merge", "exact_1"], True))
+    for bad in ("percent_80_90", "number_1_0", "percent_7_0", "number_1_000", "percent_50_", "exact_"):
+        cases.append(("bad-merge-arity-" + bad, g, base + ["--merge", bad], True))
+        cases.append(("bad-merge-arity-later-" + bad, g, base + ["--merge", "number_4", bad], True))
     cases.append(("custom-without-generator", g, base + ["-f", "custom"], True))
     cases.append(("generator-without-custom", g, base + ["--code-generator", "json_to_models.models.attr.AttrsModelCodeGenerator"], True))
     for fw in ([], ["-f", "base"], ["-f", "pydantic"], ["-f", "attrs"]):
